@@ -102,7 +102,7 @@ Section Model.
   (** result classes: bit mask over the sentinel errors joined in the result
       (errors.Is): 1 EIncorrectUser, 2 EIncorrectPassword, 4 EPasswordLength,
       8 EPasswordChars, 16 EPasswordChangeRequired, 32 other error (user not found on
-      update/delete), 64 panic. 0 = nil. *)
+      update/delete), 64 = the driver observed a Go panic (the model never produces it). 0 = nil. *)
   Definition R_OK : N := 0.
   Definition R_USER : N := 1.
   Definition R_PW : N := 2.
@@ -112,28 +112,26 @@ Section Model.
   Definition R_ERR : N := 32.
   Definition R_PANIC : N := 64.
 
-  (** [IsPasswordStrong(p, doCheck)]: [None] = the integer division by [len(password) = 0]
-      panics when the class check is enabled. *)
-  Definition strength (strong : bool) (p : Str) : option N :=
+  (** [IsPasswordStrong(p, doCheck)]: the length test, then - only if [doCheck && l > 0]
+      (the guard added by /repo commit 3a5dc47ac9; before it the class check divided by
+      [len(password)] and panicked on the empty password) - the character-class test.  Total:
+      the empty password is just too short. *)
+  Definition strength (strong : bool) (p : Str) : N :=
     let l := slen C p in
     let e1 := if (N.ltb l 8 || N.ltb 72 l)%bool then R_LEN else 0%N in
-    if strong then
-      if N.eqb l 0 then None
-      else Some (e1 + (if N.ltb (scls C p) 3 then R_CHARS else 0))%N
-    else Some e1.
+    if (strong && negb (N.eqb l 0))%bool
+    then (e1 + (if N.ltb (scls C p) 3 then R_CHARS else 0))%N
+    else e1.
 
   Definition set_password (st : pstate) (u : N) (salt : N) (p : Str) : pstate * N :=
-    match strength (strong st) p with
-    | None => (st, R_PANIC)
-    | Some e =>
-      if negb (N.eqb e 0) then (st, e)
-      else match aget N.eqb u (users st) with
-           | None => (st, R_USER)
-           | Some _ =>
-             ({| users := users st; pws := aput N.eqb u (phash C salt p) (pws st);
-                 nextu := nextu st; strong := strong st |}, R_OK)
-           end
-    end.
+    let e := strength (strong st) p in
+    if negb (N.eqb e 0) then (st, e)
+    else match aget N.eqb u (users st) with
+         | None => (st, R_USER)
+         | Some _ =>
+           ({| users := users st; pws := aput N.eqb u (phash C salt p) (pws st);
+               nextu := nextu st; strong := strong st |}, R_OK)
+         end.
 
   Definition compare_nocheck (st : pstate) (u : N) (p : Str) : N :=
     match aget N.eqb u (users st) with
@@ -147,10 +145,8 @@ Section Model.
 
   Definition compare_password (st : pstate) (u : N) (p : Str) : N :=
     let r := compare_nocheck st u p in
-    match strength (strong st) p with
-    | None => R_PANIC
-    | Some e => if (N.eqb r 0 && negb (N.eqb e 0))%bool then (R_CHANGE + e)%N else r
-    end.
+    let e := strength (strong st) p in
+    if (N.eqb r 0 && negb (N.eqb e 0))%bool then (R_CHANGE + e)%N else r.
 
   Definition cas_password (st : pstate) (u : N) (salt : N) (old new : Str) : pstate * N :=
     let r := compare_nocheck st u old in
